@@ -572,4 +572,130 @@ theorem effDur_out_of_range (ms : Int) (h : ms < i64Min ∨ i64Max < ms) : effDu
   decide
 
 
+/-! ## The awaits of a select end with it (fix bc74ad3), and the witness of the old behaviour -/
+
+/-- After a select has completed, the process no longer awaits any of that select's targets … -/
+theorem completion_ends_awaits (p : Proc V) (st : SelState V) (now : Nat) (srcs : List (Source V))
+    (top : Yield V) (hsel : p.sel = some st) (hinv : Inv p.mailbox st) (hv : VerdictOf st top)
+    (p' : Proc V) (y : Yield V) (h : handleSelect p now srcs top = (p', .completed y))
+    (t : Nat) (ht : Source.await t ∈ st.sources) :
+    p'.stillAwaiting t = false ∧ amLookup t p'.awaitingFailed = none := by
+  obtain ⟨_, _, _, _, h4, h5, _⟩ := handleSelect_spec p st now srcs top hsel hinv hv p' _ h
+  constructor
+  · simp [Proc.stillAwaiting, h4, amLookup_dropAwaits_mem st.sources p.awaiting t ht]
+  · rw [h5]; exact amLookup_dropAwaits_mem st.sources p.awaitingFailed t ht
+
+/-- … so a later failure (or result) of such a target does not concern it any more: the
+    notification leaves the whole executor unchanged (no kill, no stored value, no wake-up of a
+    process that did not ask). Likewise for a process that has already finished or failed. -/
+theorem stale_failure_has_no_effect (ex : Exec V) (awaiter awaited : Nat) (e : ErrClass) (p : Proc V)
+    (hp : ex.getProc awaiter = some p) (hstale : p.stillAwaiting awaited = false) :
+    ex.notifyFailure awaiter awaited e = ex := by
+  simp [Exec.notifyFailure, hp, hstale]
+
+theorem stale_result_is_not_stored (p : Proc V) (awaited : Nat) (v : V)
+    (hstale : p.stillAwaiting awaited = false) : p.storeResult awaited v = p := by
+  simp [Proc.storeResult, hstale]
+
+/-- A recorded failure never changes the result of the awaiter by itself: the error reaches the
+    process only through its select, in source order (`select_fails_with_spec`). -/
+theorem failure_is_recorded_not_applied (ex : Exec V) (awaiter awaited : Nat) (e : ErrClass) (p : Proc V)
+    (hp : ex.getProc awaiter = some p) :
+    ∃ p', (ex.notifyFailure awaiter awaited e).getProc awaiter = some p' ∧ p'.result = p.result ∧
+      p'.mailbox = p.mailbox := by
+  unfold Exec.notifyFailure
+  rw [hp]
+  simp only []
+  split
+  · refine ⟨p.recordFailure awaited e, ?_, rfl, rfl⟩
+    unfold Exec.wake
+    split <;> simp [Exec.getProc, Exec.setProc, amLookup_insert_self]
+  · exact ⟨p, hp, rfl, rfl⟩
+
+/-! ### Witnesses of the repaired defects (the OLD behaviour, kept as definitions in the model) -/
+
+/-- a process that finished with `Ok 7` after `! [q, 5]` timed out; `q` is pid 1 -/
+def finishedProc : Proc Nat := { result := some (.ok 7), awaiting := [(1, none)] }
+
+/-- Before bc74ad3 the awaiting entry was still there (never removed) and the failure of pid 1 was
+    applied by overwriting the result: the finished process turned into a failed one. -/
+theorem old_failure_overwrote_finished_result :
+    (((({ procs := [(0, finishedProc)] } : Exec Nat).killAwaiterOld 0 .invalidArgument).getProc 0).map (·.result))
+      = some (some (.err .invalidArgument)) := by decide
+
+/-- Now: the same notification is ignored. -/
+theorem new_failure_ignores_finished_process :
+    (((({ procs := [(0, finishedProc)] } : Exec Nat).notifyFailure 0 1 .invalidArgument).getProc 0).map (·.result))
+      = some (some (.ok 7)) := by decide
+
+/-- `! [2, q]` whose timeout (source 0) has expired while parked; then q's failure arrives. Old: the
+    process was failed on arrival. New: the failure is recorded, the re-entry yields the nil of the
+    higher-priority timeout. -/
+def parkedOnTimeoutAndAwait : Proc Nat :=
+  { awaiting := [(1, none)],
+    sel := some { sources := [.timeout 2, .await 1], cursors := [], startTime := some 0, receiving := none } }
+
+theorem new_error_does_not_preempt_ready_timeout :
+    (stepSelectPure (((({ procs := [(0, parkedOnTimeoutAndAwait)], selecting := [0] } : Exec Nat).notifyFailure 0 1
+        .invalidArgument).getProc 0).getD {}) 10 []).2 = .completed .nil := by decide
+
+theorem old_error_preempted_ready_timeout :
+    (((({ procs := [(0, parkedOnTimeoutAndAwait)], selecting := [0] } : Exec Nat).killAwaiterOld 0
+        .invalidArgument).getProc 0).map (·.result)) = some (some (.err .invalidArgument)) := by decide
+
+/-- … and when the failed process IS the first ready source, its error propagates. -/
+theorem error_propagates_in_order :
+    (stepSelectPure (((({ procs := [(0, parkedOnTimeoutAndAwait)], selecting := [0] } : Exec Nat).notifyFailure 0 1
+        .invalidArgument).getProc 0).getD {}) 1 []).2 = .failed .invalidArgument := by decide
+
+/-! ### Examples: the hypotheses are satisfiable by non-trivial histories -/
+
+/-- sources `[#int {even}, #bin, 10]` over `Nat` messages: "int" = below 100, "bin" = from 100 -/
+def exSources : List (Source Nat) :=
+  [.receive (fun m => m < 100) (some (fun m => if m % 2 = 0 then .ret (.value 999) else .ret .nil)),
+   .receive (fun m => m ≥ 100) none,
+   .timeout 10]
+
+/-- entry at t=5; 3 arrives; the filter is called on 3; while it runs, 4 arrives; re-entry (verdict
+    nil → cursor moves on, filter called on 4); while it runs, the "bin" 100 arrives -/
+def exHistory : List (Event Nat) :=
+  [.select 5 exSources, .msg 3, .select 5 exSources, .msg 4, .select 6 exSources, .msg 100]
+
+/-- the next execution completes with the MESSAGE 4 (not the filter's 999, not the "bin" 100 of the
+    lower-priority source), and leaves `[3, 100]` in that order -/
+example : (stepSelectPure (({} : Proc Nat).run exHistory) 7 exSources).2 = .completed (.value 4) ∧
+    (stepSelectPure (({} : Proc Nat).run exHistory) 7 exSources).1.mailbox = [3, 100] ∧
+    (({} : Proc Nat).run exHistory).result = none ∧ (({} : Proc Nat).run exHistory).sel.isSome = true := by decide
+
+example : selectSpec [3, 4, 100] (fun _ => none) 5 7 exSources = .yields (.value 4) (some 1) := by decide
+
+/-- F7's shape: `[#bin {Ok}, #str {slow Ok}]` ("bin" < 100 ≤ "str"): the str message 200 arrives, its
+    slow filter is called; the bin message 1 arrives; at the re-entry the higher-priority source
+    takes over (the pending verdict on 200 is abandoned: `receiving` now holds 1) … -/
+def f7Sources : List (Source Nat) :=
+  [.receive (fun m => m < 100) (some (fun _ => .ret (.value 999))),
+   .receive (fun m => m ≥ 100) (some (fun _ => .ret (.value 999)))]
+
+def f7History : List (Event Nat) :=
+  [.select 0 f7Sources, .select 0 f7Sources, .msg 200, .select 1 f7Sources, .msg 1, .select 4 f7Sources]
+
+example : ((({} : Proc Nat).run f7History).sel.map (·.receiving)) = some (some (0, 1)) ∧
+    (({} : Proc Nat).run f7History).mailbox = [200, 1] := by decide
+
+/-- … the select then completes with 1, and the abandoned 200 is still in the mailbox for the next
+    select (`!#Str[bin]` in the original program). -/
+example : (stepSelectPure (({} : Proc Nat).run f7History) 5 f7Sources).2 = .completed (.value 1) ∧
+    (stepSelectPure (({} : Proc Nat).run f7History) 5 f7Sources).1.mailbox = [200] := by decide
+
+/-- `expiry_wakes` / `wakes_iff_next_timeout_reached` on a concrete executor: started at 3 with
+    timeouts 10 and 4 → next timeout 7; at 6 nobody is woken, at 7 the process is. -/
+def exExec : Exec Nat :=
+  { procs := [(0, { sel := some { sources := [.timeout 10, .receive (fun _ => true) none, .timeout 4],
+                                  cursors := [0], startTime := some 3, receiving := none } })],
+    selecting := [0] }
+
+example : exExec.nextTimeoutMs = some 7 ∧ (exExec.checkExpiredTimeouts 6).queue = [] ∧
+    (exExec.checkExpiredTimeouts 7).queue = [0] ∧ (exExec.checkExpiredTimeouts 7).selecting = [] := by decide
+
+
 end C05
